@@ -4,11 +4,15 @@ Import ListNotations.
 Require Import EmbossV.Bounds.Model EmbossV.Layout.Model EmbossV.Layout.Proofs.
 Open Scope Z_scope.
 
-Lemma unit_cases M r : units_ok M -> unit_of_ref M r = 1 \/ unit_of_ref M r = 8.
+Definition externals_ok (M : module) : Prop := forall x, In x (m_externals M) -> real_external x.
+
+Lemma unit_cases M r : units_ok M -> externals_ok M -> unit_of_ref M r = 1 \/ unit_of_ref M r = 8.
 Proof.
-  intros U. destruct r as [p|i|i]; simpl; auto.
-  unfold nth_struct. destruct (nth_error (m_structs M) i) as [s|] eqn:E; auto.
-  apply U. eapply nth_error_In; eauto.
+  intros U X. destruct r as [p|i|i|i]; simpl; auto.
+  - unfold nth_struct. destruct (nth_error (m_structs M) i) as [s|] eqn:E; auto.
+    apply U. eapply nth_error_In; eauto.
+  - unfold nth_ext. destruct (nth_error (m_externals M) i) as [x|] eqn:E; auto.
+    apply ext_unit_ok. apply X. eapply nth_error_In; eauto.
 Qed.
 
 Lemma all_but_last_const_iff d :
@@ -20,13 +24,13 @@ Proof.
 Qed.
 
 Lemma check_field_iff T M s f :
-  t_req T = prelude_req -> units_ok M -> (s_unit s = 1 \/ s_unit s = 8) ->
+  t_req T = prelude_req -> units_ok M -> externals_ok M -> (s_unit s = 1 \/ s_unit s = 8) ->
   (check_field T M s f = true <-> real_field T M s f).
 Proof.
-  intros HT UM US. unfold check_field, real_field.
+  intros HT UM XM US. unfold check_field, real_field.
   destruct (f_virtual f) eqn:V; [split; [intros _ H; discriminate | reflexivity]|].
   rewrite !andb_true_iff, all_but_last_const_iff, (check_type_req_iff T M s f HT), check_border_iff.
-  pose proof (unit_cases M (t_ref (f_type f)) UM) as UR.
+  pose proof (unit_cases M (t_ref (f_type f)) UM XM) as UR.
   split.
   - intros (((((A & B) & C) & D) & E) & F) _.
     split; [|split; [|split; [exact D|split; [exact E|exact F]]]].
@@ -54,9 +58,20 @@ Qed.
 Lemma not_reserved_iff T n : negb (reserved T n) = true <-> ~ In n (t_reserved T).
 Proof. rewrite negb_true_iff, <- reserved_iff. destruct (reserved T n); split; congruence. Qed.
 
+Lemma forallb_iff {A} (f : A -> bool) (P : A -> Prop) l :
+  (forall x, In x l -> (f x = true <-> P x)) -> (forallb f l = true <-> forall x, In x l -> P x).
+Proof.
+  intros H. rewrite forallb_forall. split; intros K x Hx; apply (H x Hx); auto.
+Qed.
+
 Lemma check_names_iff T M : check_names T M = true <-> real_names T M.
 Proof.
-  unfold check_names, real_names. rewrite andb_true_iff, !forallb_forall. split.
+  unfold check_names, real_names. rewrite !andb_true_iff.
+  rewrite (forallb_iff (fun x => negb (reserved T (xd_name x))) (fun x => ~ In (xd_name x) (t_reserved T)))
+    by (intros x _; apply not_reserved_iff).
+  rewrite !forallb_forall.
+  assert (K : forall (A B A' B' C : Prop), (A /\ B <-> A' /\ B') -> ((A /\ B) /\ C <-> A' /\ B' /\ C)) by tauto.
+  apply K. clear K. split.
   - intros [A B]. split.
     + intros e He. specialize (A e He). apply andb_true_iff in A. destruct A as [A1 A2].
       split; [apply not_reserved_iff; assumption|]. intros n v Hin. rewrite forallb_forall in A2.
@@ -71,11 +86,6 @@ Proof.
       apply forallb_forall. intros f Hf. apply not_reserved_iff. auto.
 Qed.
 
-Lemma forallb_iff {A} (f : A -> bool) (P : A -> Prop) l :
-  (forall x, In x l -> (f x = true <-> P x)) -> (forallb f l = true <-> forall x, In x l -> P x).
-Proof.
-  intros H. rewrite forallb_forall. split; intros K x Hx; apply (H x Hx); auto.
-Qed.
 
 Lemma check_all_attrs_iff T M : check_all_attrs T M = true <-> real_attrs T M.
 Proof.
@@ -91,6 +101,7 @@ Proof.
   2:{ intros s _. rewrite andb_true_iff, check_attrs_iff.
       rewrite (forallb_iff _ (fun f => attrs_ok (t_attr T) (field_scope f) (f_attrs f))); [tauto|].
       intros f _. apply check_attrs_iff. }
+  rewrite (forallb_iff _ (fun x => attrs_ok (t_attr T) ScExternal (xd_attrs x))) by (intros x _; apply check_attrs_iff).
   tauto.
 Qed.
 
@@ -108,15 +119,24 @@ Proof.
   intros HT UM. unfold check_layout, realisable.
   rewrite !andb_true_iff, check_all_attrs_iff, check_names_iff, check_back_ends_iff.
   rewrite (forallb_iff check_enum real_enum) by (intros e _; apply check_enum_iff).
-  rewrite (forallb_iff _ (fun s => real_struct_size s /\ (forall f, In f (s_fields s) -> real_field T M s f)
+  rewrite (forallb_iff check_external real_external) by (intros x _; apply check_external_iff).
+  (* the field rules are equivalent once every external has a valid addressable unit *)
+  assert (S : externals_ok M ->
+              (forallb (fun s => check_struct_size s && forallb (check_field T M s) (s_fields s)
+                                 && forallb (check_param T M) (s_params s)) (m_structs M) = true <->
+               (forall s, In s (m_structs M) ->
+                  real_struct_size s /\ (forall f, In f (s_fields s) -> real_field T M s f)
+                  /\ (forall p, In p (s_params s) -> real_param M p)))).
+  { intros XM.
+    apply (forallb_iff _ (fun s => real_struct_size s /\ (forall f, In f (s_fields s) -> real_field T M s f)
                                    /\ (forall p, In p (s_params s) -> real_param M p))).
-  2:{ intros s Hs. rewrite !andb_true_iff, check_struct_size_iff.
-      rewrite (forallb_iff _ (real_field T M s)).
-      2:{ intros f _. apply (check_field_iff T M s f HT UM (UM s Hs)). }
-      rewrite (forallb_iff _ (real_param M)); [tauto|].
-      intros [r b] _. unfold check_param, real_param. simpl.
-      destruct r; try tauto. apply (phys_req_iff T M _ _ HT). }
-  tauto.
+    intros s Hs. rewrite !andb_true_iff, check_struct_size_iff.
+    rewrite (forallb_iff _ (real_field T M s)).
+    2:{ intros f _. apply (check_field_iff T M s f HT UM XM (UM s Hs)). }
+    rewrite (forallb_iff _ (real_param M)); [tauto|].
+    intros [r b] _. unfold check_param, real_param. simpl.
+    destruct r; try tauto. apply (phys_req_iff T M _ _ HT). }
+  unfold externals_ok in S. tauto.
 Qed.
 
 (* defaults: the byte order a field gets is its own, else the innermost enclosing $default *)
@@ -155,4 +175,32 @@ Proof.
   assert (C : check_layout ex_T ex_M_bad = false) by (vm_compute; reflexivity).
   split; [exact U|]. split; [exact C|].
   intros R. apply (check_layout_iff_realisable_lem ex_T ex_M_bad eq_refl U) in R. congruence.
+Qed.
+
+(* user-defined externals: one realisable module, and one module per broken rule *)
+Lemma example_externals_lem :
+  (units_ok ex_M_ext_ok /\ check_layout ex_T ex_M_ext_ok = true /\ realisable ex_T ex_M_ext_ok)
+  /\ Forall (fun M => units_ok M /\ check_layout ex_T M = false /\ ~ realisable ex_T M) ex_M_ext_bad.
+Proof.
+  split.
+  - assert (U : units_ok ex_M_ext_ok) by (apply units_okb_ok; vm_compute; reflexivity).
+    assert (C : check_layout ex_T ex_M_ext_ok = true) by (vm_compute; reflexivity).
+    split; [exact U|]. split; [exact C|]. apply (check_layout_iff_realisable_lem ex_T _ eq_refl U). exact C.
+  - repeat constructor; try (apply units_okb_ok; vm_compute; reflexivity); try (vm_compute; reflexivity);
+      intros R; match type of R with realisable _ ?M =>
+        assert (U : units_ok M) by (apply units_okb_ok; vm_compute; reflexivity);
+        apply (check_layout_iff_realisable_lem ex_T M eq_refl U) in R; vm_compute in R; discriminate end.
+Qed.
+
+(* the addressable unit of an accepted module's externals is 1 or 8, and it is what decides where a
+   field of that type may stand (bits: bit-oriented only) and whether it needs a byte order *)
+Lemma external_unit_lem T M :
+  check_layout T M = true -> forall i x, nth_ext M i = Some x ->
+  (xd_unit x = Some 1 \/ xd_unit x = Some 8) /\ unit_of_ref M (RExt i) = ext_unit x
+  /\ (ext_unit x = 1 \/ ext_unit x = 8).
+Proof.
+  unfold check_layout. rewrite !andb_true_iff. intros [[[[_ H] _] _] _] i x E.
+  rewrite forallb_forall in H. assert (R : real_external x).
+  { apply check_external_iff. apply H. unfold nth_ext in E. eapply nth_error_In; eauto. }
+  split; [exact R|]. split; [simpl; rewrite E; reflexivity|apply ext_unit_ok; exact R].
 Qed.
